@@ -69,10 +69,43 @@ Theorem C09_trace_accepted : forall addrs rotate tries chance delay now evs ch o
 Proof. exact monitor_accepts. Qed.
 Print Assumptions C09_trace_accepted.
 
+(* server-list edits (ares_servers_update), also while attempts are in flight: the new table is
+   sorted by (consecutive failures, NEW index), its addresses are a permutation of the new
+   configuration (duplicates skipped), every server's index is the position of its address,
+   known servers keep their failures and new ones start at 0.  Together with
+   C09_choice_minimal (any well-formed table) and C09_trace_accepted (histories containing
+   edits, with re-queued attempts) "the first such in configuration order" refers to the list
+   as last set.  Proved for the code with fixes/C09-stale-servers-unlink-first.patch. *)
+Theorem C09_edit_result : forall old addrs,
+  wf old ->
+  wf (servers_update old addrs) /\
+  Permutation (map sv_addr (servers_update old addrs)) (dedup [] addrs) /\
+  forall s, In s (servers_update old addrs) ->
+    nth_error (dedup [] addrs) (Z.to_nat (sv_idx s)) = Some (sv_addr s) /\ 0 <= sv_idx s /\
+    sv_fail s = fail_or_0 old (sv_addr s).
+Proof. exact edit_result. Qed.
+Print Assumptions C09_edit_result.
+
+(* list_changed (query cache flush) stays false only if the set of addresses is unchanged *)
+Theorem C09_edit_changed : forall old addrs,
+  update_changed old addrs = false -> forall a, In a addrs <-> In a (map sv_addr old).
+Proof. exact update_changed_false. Qed.
+Print Assumptions C09_edit_changed.
+
+(* The pinned ares_servers_remove_stale re-queues a query to a server that is itself being
+   removed (reachable witness; the monitor rejects the stream; the patched code does not) *)
+Theorem C09_edit_pinned_refuted :
+  exists ch obs0, run (init_chan [1; 2; 3] false 3 1 0 (100000, 0)) history_stale = Ok (ch, obs0) /\
+    (exists ch', set_servers_pinned ch [2] [] = Ok (ch', [OServers [2]; OTx 3 3 false; OTx 3 2 false])) /\
+    (exists ch', step ch (EvSetServers [2] []) = Ok (ch', [OServers [2]; OTx 3 2 false])) /\
+    mon_run (mon_init [1; 2; 3] false) (obs0 ++ [OServers [2]; OTx 3 3 false]) = None.
+Proof. exact edit_pinned_refuted. Qed.
+Print Assumptions C09_edit_pinned_refuted.
+
 (* the probe copy does not alter the user's query *)
-Theorem C09_probe_isolated : forall ch label try c ch1 obs1,
-  wf (ch_servers ch) -> send_fresh ch label try c = Ok (ch1, obs1) ->
-  exists ch0, send_fresh (with_chance ch 0) label try c = Ok (ch0, filter user_obs obs1) /\
+Theorem C09_probe_isolated : forall ch label try err c ch1 obs1,
+  wf (ch_servers ch) -> send_fresh ch label try err c = Ok (ch1, obs1) ->
+  exists ch0, send_fresh (with_chance ch 0) label try err c = Ok (ch0, filter user_obs obs1) /\
     map key4 (ch_servers ch0) = map key4 (ch_servers ch1) /\
     filter user_attempt (ch_inflight ch0) = filter user_attempt (ch_inflight ch1).
 Proof. exact probe_isolated. Qed.
@@ -87,8 +120,8 @@ Proof. exact probe_failure_ends. Qed.
 Print Assumptions C09_probe_never_retried.
 
 (* when a probe is sent *)
-Theorem C09_probe_conditions : forall ch label try c ch' obs pl pa,
-  wf (ch_servers ch) -> send_fresh ch label try c = Ok (ch', obs) -> In (OTx pl pa true) obs ->
+Theorem C09_probe_conditions : forall ch label try err c ch' obs pl pa,
+  wf (ch_servers ch) -> send_fresh ch label try err c = Ok (ch', obs) -> In (OTx pl pa true) obs ->
   try = 0 /\ ch_chance ch <> 0 /\ c_probe c mod ch_chance ch = 0 /\
   exists ps, In ps (ch_servers ch) /\ sv_addr ps = pa /\ 0 < sv_fail ps /\ sv_probe ps = false /\
     (exists t, c_ares_timedout (fst (ch_now ch)) (fst (sv_retry ps)) (snd (ch_now ch)) (snd (sv_retry ps)) = Ok t /\ t <> 0) /\
